@@ -100,6 +100,10 @@ const Y_POINT: u8 = 5;
 const THR_WATCHDOG: Duration = Duration::from_secs(10);
 
 struct H {
+    /// (hook point, milliseconds): pause there once, in real time (`OpenBeside`)
+    delay: Mutex<Option<(String, u64)>>,
+    /// producer threads are not scheduled while this is set (`OpenBeside` uses real time instead)
+    no_producer_gate: std::sync::atomic::AtomicBool,
     st: Mutex<St>,
     cv: Condvar,
     faults: Vec<Fault>,
@@ -444,6 +448,34 @@ impl Handler for H {
                         std::thread::sleep(Duration::from_secs(60));
                     }
                 }
+                Fault::FailKind { point, k: at, error: kind } if point == p.name && *at == k => {
+                    emit(&self.log, &Event::FaultFired { kind: "fail".into(), point: format!("{point}:{kind}"), k });
+                    {
+                        let mut st = self.st.lock().unwrap();
+                        st.controlled = false;
+                        for g in st.go.iter_mut() {
+                            *g = true;
+                        }
+                        if st.prod.active {
+                            st.prod.lost = true;
+                        }
+                        self.cv.notify_all();
+                    }
+                    let ek = match kind.as_str() {
+                        "permission_denied" => io::ErrorKind::PermissionDenied,
+                        "not_found" => io::ErrorKind::NotFound,
+                        "already_exists" => io::ErrorKind::AlreadyExists,
+                        "would_block" => io::ErrorKind::WouldBlock,
+                        "invalid_data" => io::ErrorKind::InvalidData,
+                        "unexpected_eof" => io::ErrorKind::UnexpectedEof,
+                        "out_of_memory" => io::ErrorKind::OutOfMemory,
+                        "timed_out" => io::ErrorKind::TimedOut,
+                        "write_zero" => io::ErrorKind::WriteZero,
+                        "unsupported" => io::ErrorKind::Unsupported,
+                        _ => io::ErrorKind::Other,
+                    };
+                    return Err(io::Error::new(ek, format!("injected {kind} at {}#{}", p.name, k)));
+                }
                 Fault::Fail { point, k: at, interrupted } if point == p.name && *at == k => {
                     emit(
                         &self.log,
@@ -467,7 +499,16 @@ impl Handler for H {
                 _ => {}
             }
         }
-        if matches!(p.name, "rebuild.asset_start" | "rebuild.before_add" | "rebuild.after_add") {
+        {
+            let d = self.delay.lock().unwrap().clone();
+            if let Some((point, ms)) = d {
+                if point == p.name {
+                    *self.delay.lock().unwrap() = None;
+                    std::thread::sleep(Duration::from_millis(ms));
+                }
+            }
+        }
+        if matches!(p.name, "rebuild.asset_start" | "rebuild.before_add" | "rebuild.after_add") && !self.no_producer_gate.load(std::sync::atomic::Ordering::SeqCst) {
             self.producer_gate(p);
         }
         {
@@ -1221,6 +1262,8 @@ impl AsDb for anything::Db {
 }
 trait ViaThreads {
     fn run_callers(&self, h: &Arc<H>, queries: &[QuerySpec], threads: &[Vec<usize>]) -> Option<Vec<CallerOut>>;
+    /// run `open` on this thread while another thread asks this database after `ask_after_ms`
+    fn ask_beside(&self, s: &shipped::Shipped, only: &Option<Vec<usize>>, slot: usize, ask_after_ms: u64, open: &mut dyn FnMut()) -> Option<Event>;
 }
 impl<'a, T: Sync + AsDb> ViaThreads for Probe<'a, T> {
     fn run_callers(&self, h: &Arc<H>, queries: &[QuerySpec], threads: &[Vec<usize>]) -> Option<Vec<CallerOut>> {
@@ -1263,9 +1306,26 @@ impl<'a, T: Sync + AsDb> ViaThreads for Probe<'a, T> {
         });
         Some(all)
     }
+
+    fn ask_beside(&self, s: &shipped::Shipped, only: &Option<Vec<usize>>, slot: usize, ask_after_ms: u64, open: &mut dyn FnMut()) -> Option<Event> {
+        let shared: &T = self.0;
+        let mut ev = None;
+        std::thread::scope(|sc| {
+            let asker = sc.spawn(move || {
+                std::thread::sleep(Duration::from_millis(ask_after_ms));
+                own_words(shared.as_db(), s, Perms::Identity, only, None, slot)
+            });
+            open();
+            ev = asker.join().ok();
+        });
+        ev
+    }
 }
 trait ViaNothing {
     fn run_callers(&self, _h: &Arc<H>, _queries: &[QuerySpec], _threads: &[Vec<usize>]) -> Option<Vec<CallerOut>> {
+        None
+    }
+    fn ask_beside(&self, _s: &shipped::Shipped, _only: &Option<Vec<usize>>, _slot: usize, _ask_after_ms: u64, _open: &mut dyn FnMut()) -> Option<Event> {
         None
     }
 }
@@ -1348,6 +1408,8 @@ fn main() {
         }
     };
     let h = Arc::new(H {
+        delay: Mutex::new(None),
+        no_producer_gate: std::sync::atomic::AtomicBool::new(false),
         st: Mutex::new(St::default()),
         cv: Condvar::new(),
         faults: script.faults.clone(),
@@ -1430,6 +1492,48 @@ fn main() {
                 let Some(Some(db)) = slots.get(*slot) else { continue };
                 for ev in threads_op(&h, db, *iso_fresh, queries, threads, schedule, *slot) {
                     emit(&h.log, &ev);
+                }
+            }
+            Op::OpenBeside { slot, watch_slot, hold_point, hold_ms, ask_after_ms, only } => {
+                if shipped_cache.is_none() {
+                    match shipped::load(&script.repo) {
+                        Ok(s) => shipped_cache = Some(s),
+                        Err(e) => {
+                            emit(&h.log, &Event::HarnessError { what: e });
+                            std::process::exit(2);
+                        }
+                    }
+                }
+                // the next open has to recreate the index: the metadata goes
+                if let Ok(x) = std::env::var("XDG_DATA_HOME") {
+                    let _ = std::fs::remove_file(std::path::Path::new(&x).join("facts").join("meta.json"));
+                }
+                *h.delay.lock().unwrap() = Some((hold_point.clone(), *hold_ms));
+                h.no_producer_gate.store(true, std::sync::atomic::Ordering::SeqCst);
+                let mut opened: Option<(Option<anything::Db>, BuildInfo)> = None;
+                let mut ev = None;
+                if let Some(Some(watched)) = slots.get(*watch_slot) {
+                    let mut open = || opened = Some(open_db(&h, *slot, Mode::Disk, &Plan::default()));
+                    ev = (&Probe(watched)).ask_beside(shipped_cache.as_ref().unwrap(), only, *watch_slot, *ask_after_ms, &mut open);
+                }
+                h.no_producer_gate.store(false, std::sync::atomic::Ordering::SeqCst);
+                *h.delay.lock().unwrap() = None;
+                if opened.is_none() {
+                    // not run beside anything (no watched database, or its type is not Sync): a plain open
+                    opened = Some(open_db(&h, *slot, Mode::Disk, &Plan::default()));
+                }
+                if let Some(ev) = ev {
+                    emit(&h.log, &ev);
+                }
+                if let Some((db, info)) = opened {
+                    if db.is_none() {
+                        failed_open = true;
+                    }
+                    emit(&h.log, &Event::Build(info));
+                    while slots.len() <= *slot {
+                        slots.push(None);
+                    }
+                    slots[*slot] = db;
                 }
             }
             Op::Drop { slot } => {
